@@ -129,6 +129,7 @@ class SSHChannel(Generic[AnyStr], SSHPacketHandler):
         self._send_paused = False
         self._send_buf: List[Tuple[bytearray, DataType]] = []
         self._send_buf_len = 0
+        self._send_eof_pending = False
 
         self._recv_state = 'closed'
         self._init_recv_window = window
@@ -341,6 +342,12 @@ class SSHChannel(Generic[AnyStr], SSHPacketHandler):
                 self.send_packet(MSG_CHANNEL_EOF)
                 self._send_state = 'eof'
             elif self._send_state == 'close_pending':
+                if self._send_eof_pending:
+                    # EOF was written before close, while data was
+                    # still waiting to be sent
+                    self._send_eof_pending = False
+                    self.send_packet(MSG_CHANNEL_EOF)
+
                 self._close_send()
 
     def _flush_recv_buf(self, exc: Optional[Exception] = None) -> None:
@@ -804,6 +811,7 @@ class SSHChannel(Generic[AnyStr], SSHPacketHandler):
 
         if self._send_state not in {'close_pending', 'closed'}:
             # Send a close only after sending unsent data
+            self._send_eof_pending = self._send_state == 'eof_pending'
             self._send_state = 'close_pending'
             self._flush_send_buf()
 
